@@ -17,6 +17,7 @@ func init() {
 			Kind: slip.MacroSymbol,
 			Name: "untrace",
 			Args: []*slip.DocArg{
+				{Name: "&rest"},
 				{
 					Name: "name*",
 					Type: "symbol",
